@@ -206,6 +206,18 @@ PROPS["C12"] = dict(
 )
 
 
+PROPS["C15"] = dict(
+    n_quick=6000, n_thorough=150000, classify=lambda op, i, m: "fuzz:" + ("range-ok" if "fsok=1" in m else ("seq-ok" if "seq4=err" not in m else "all-rejected")),
+    rule="op fuzz: one byte string (<= 300 bytes; grammar-derived corpus, splices, mutations, structural-alphabet noise incl. "
+         "non-UTF-8, newlines, template syntax; numerals capped at 4 digits, '\\' excluded) through NewFrameSet, IsFrameRange, "
+         "NewFileSequencePad (both styles), PadFrameRange, FindSequencesInList; every accepted sequence is then queried, "
+         "formatted with 10 templates (incl. the input itself), split, copied and mutated, all under recover; a panic fails "
+         "the op; non-trivial = any distinct input",
+    assumptions=["text/template and regexp are trusted not to panic on their own; Format results are not compared (engine not modelled)",
+                 "inputs containing a backslash are excluded (Windows separator logic is not modelled)"],
+)
+
+
 def _negzero_single(op, impl, model_line):
     if not op.endswith(" single"):
         return False
@@ -265,6 +277,12 @@ MANIFEST_TEXT = {
              "comma component with equal dir/base/pad/width/style/ext whose frames concatenate (first occurrences) to the original's.",
         note="Trusted: Lean kernel; model of sequence.go setters/Copy/Split tied by correspondence incl. an aliasing test of Copy; "
              "histories containing SetFrameSet(Normalize()) are covered by correspondence only."),
+    "C15": dict(
+        text="Theorem: IsFrameRange(s) is true exactly when NewFrameSet(s) succeeds, for every byte string; the model's functions "
+             "are total (kernel-checked termination) and the guards of the two index expressions are stated. Crash-freedom of the "
+             "Go code itself is exercised (every entry point under recover on generated byte strings), not proved.",
+        note="Partial: panics inside regexp / text/template / fmt cannot be exhibited by the model; Format with arbitrary templates "
+             "is exercised but not modelled. Trusted: Lean kernel, model tie by correspondence."),
     "C08": dict(
         text="Theorems: for every accepted range text with >= 1 frame the model's Normalize yields sortedSet of the frames and "
              "Invert the complement within [min,max], both well-formed; their printed strings re-parse to those lists; "
